@@ -52,6 +52,8 @@ impl<T> Combine for ListBuilder<T> {
         if self.is_empty() {
             return other;
         }
+        #[cfg(feature = "verif")]
+        crate::verif::pre("linter.combine", !self.is_empty() && !other.is_empty());
         let mut ds = match self {
             ListBuilder::Empty => unsafe { unreachable_unchecked() },
             ListBuilder::One(d) => vec![d],
